@@ -18,7 +18,7 @@ def gen_chunk(rng, big=False):
     shape = (C,) + tuple(shp)
     n = int(np.prod(shape))
     top = 2**32 if dt == "uint32" else 2**64
-    mode = rng.choice(["const", "two", "few", "16", "256", "many", "arange", "shared-bg", "highbits", "blocky"])
+    mode = rng.choice(["const", "two", "few", "16", "256", "many", "arange", "shared-bg", "highbits", "blocky", "bytealigned"])
     nrng = np.random.default_rng(rng.getrandbits(32))
     if mode == "const":
         a = np.full(shape, rng.randrange(top), dtype=dt)
@@ -29,6 +29,20 @@ def gen_chunk(rng, big=False):
         k = max(1, n // 7)
         idx = nrng.integers(0, n, size=k)
         a.reshape(-1)[idx] = nrng.integers(1, 4, size=k).astype(dt)
+    elif mode == "bytealigned":
+        # per-block label sets from a pool of labels whose little-endian bytes are mostly zero: the byte image of
+        # one block's table then occurs inside another block's table at offsets that are NOT word aligned
+        pool = [1, 2, 3, 5, 0x100, 0x200, 0x300, 0x400, 0x10000, 0x20000, 0x1000000, 0x1000100]
+        if dt == "uint64":
+            pool += [2**32, 2**32 + 256, 2**40, 3 * 2**40, 2**56, 70000]
+        a = np.zeros(shape, dtype=dt)
+        for c in range(C):
+            for z0 in range(0, shape[1], bs[2]):
+                for y0 in range(0, shape[2], bs[1]):
+                    for x0 in range(0, shape[3], bs[0]):
+                        labs = rng.sample(pool, rng.choice([1, 1, 2, 2, 3]))
+                        sub = a[c, z0:z0 + bs[2], y0:y0 + bs[1], x0:x0 + bs[0]]
+                        sub[...] = np.array(labs, dtype=dt)[nrng.integers(0, len(labs), size=sub.shape)]
     elif mode == "blocky":
         a = np.zeros(shape, dtype=dt)
         for c in range(C):
